@@ -16,12 +16,25 @@ R07.3 init leaves no stale carry: on every path of each of the 8 init bodies ctx
       orig_IV, current_counter and partial_block_length are stored before returning.  partial_block_enc_key is
       exempt: the VAES family never initialises it and every family writes it before partial_block_length becomes
       non-zero (confirmed by reading; its definedness is C20's).
+R07.4 one family per CPU class: under the same CPU facts the dispatchers of precomp, enc, dec, enc_update and
+      dec_update (plain and _nt) of one key size bind implementations of the same family - the hash-key table
+      written by precomp is laid out per family.
+R07.5 GHASH schedule of the streaming bodies (lib/ghash.py): for every update body, every pending partial block of
+      0, 1, 8, 15 bytes (thorough: 0..15) and a set of lengths that exercises every aggregation depth, the monomial
+      interpretation of the path the length selects must leave in ctx->aad_hash: the carried hash times H^n, block
+      i of the data times H^(n-i) for every block completed by this call (n of them, block boundaries shifted by
+      the pending bytes), and the trailing partial block un-multiplied.  The key table is what the same family's
+      precomp body stores.  Over-approximating sets, presence-only demand: cannot alarm on a correct schedule.
+R07.6 GHASH schedule of finalize: the tag written through auth_tag contains the carried hash times H^(1 + [a partial
+      block is pending]) and the length block times H.
 The update bodies' alignment, in-place and tag-extent clauses are decided under C02 (R02.1, R02.5, R02.2), the
 zero-length update under C08 R08.7.
 """
 import collections
+import re
 
 import absint
+import ghash
 import build
 import c19
 import cands
@@ -63,6 +76,121 @@ def reach_avoiding(f, start, avoid, targets):
             return True
         st.extend(f.succ.get(x, []))
     return False
+
+
+_PRE = {}
+
+
+def lengths_for(pb, thorough):
+    if thorough:
+        return list(range(1, 1150)) if pb in (0, 16) else list(range(1, 300)) + [16 * k + r for k in (31, 32, 33, 47, 48, 49, 64) for r in (0, 16 - pb, 17 - pb)]
+    big = (5, 7, 8, 9, 12, 15, 16, 17, 24, 31, 32, 33, 40, 47, 48, 49, 50, 64, 65)
+    if pb in (0, 16):
+        return list(range(1, 81)) + [16 * k + r for k in big for r in (0, 1, 15)]
+    return list(range(1, 49)) + [16 * k + r for k in (8, 16, 17, 32, 33, 48, 49) for r in (0, 16 - pb, 17 - pb)]
+
+
+def gh_rule(lib, o, key, name, kind, sig, fields, extra, out, add):
+    thorough = extra.get("tier") == "thorough"
+    m = re.match(r"^_aes_gcm_(enc|dec)_(128|256)_(update|finalize)_(\w+?)(_nt)?$", name)
+    if not m:
+        out["broken"].append("%s: name not understood by the GHASH rule" % name)
+        return
+    pre_name = "_aes_gcm_precomp_%s_%s" % (m.group(2), m.group(4))
+    if pre_name not in _PRE:
+        try:
+            pf = lib.func_named(pre_name)
+        except Exception:
+            pf = None
+        km = None
+        if pf is not None:
+            pm = ghash.GhashMachine(lib, pf, {"RDI": ("p", "key_data", 0)}, precomp=True)
+            pr = pm.run()
+            if pr.returned and not pr.stopped and pm.finals:
+                km = pm.finals[0].get("key_data", [])
+                if not any(("K", 1) in e[2] for e in km):
+                    km = None
+        _PRE[pre_name] = km
+    keymem = _PRE[pre_name]
+    if keymem is None:
+        out["broken"].append("%s: the precomp body %s could not be interpreted (no H in the key table)" % (name, pre_name))
+        return
+    f = lib.func(key)
+    hoff = fields["aad_hash"][0]
+    pboff = fields["partial_block_length"][0]
+    lo_len, hi_len = fields["aad_length"][0], fields["in_length"][0] + 8
+    names = {s_[0]: k for k, s_ in enumerate(sig) if s_}
+    judged = notj = 0
+    why = None
+    bad = None
+    pbs = list(range(16) if thorough else (0, 1, 8, 15)) + ([16] if "vaes" in name else [])
+    for PB in pbs:
+        Ls = lengths_for(PB, thorough) if kind == "update" else [0]
+        for L in Ls:
+            entry = {}
+            for k, sg in enumerate(sig):
+                if sg is None or k >= 6:
+                    continue
+                isptr = "*" in (sg[2] or "")
+                nm_ = sg[0] or ("arg%d" % k)
+                entry[ARGREGS[k]] = ("p", nm_, 0) if isptr else (L if nm_ == "len" else 16 if nm_ == "auth_tag_len" else None)
+
+            def hook(i, a, size, _pb=PB):
+                if a[0] == "p" and a[1] == "context_data" and a[2] == pboff and size == 8:
+                    return _pb
+                return None
+            mch = ghash.GhashMachine(lib, f, entry, mem_hook=hook, pb=PB, hash_off=hoff, keymem=keymem, len_range=(lo_len, hi_len))
+            rr = mch.run()
+            if rr.stopped or not rr.returned or not mch.finals:
+                notj += 1
+                why = why or rr.stopped or "no return reached"
+                continue
+            judged += 1
+            if bad:
+                continue
+            for fin, scal in zip(mch.finals, mch.final_scalars):
+                if kind == "update":
+                    got = set()
+                    for (l, h, ss) in fin.get("context_data", []):
+                        if l < hoff + 16 and hoff < h:
+                            got |= ss
+                    newpb = scal.get(("context_data", pboff), PB)      # not stored: the field keeps the value the call was entered with
+                    if not isinstance(newpb, int):
+                        judged -= 1
+                        notj += 1
+                        why = why or "the stored partial_block_length is not a known value"
+                        break
+                    if newpb > 16 or newpb > PB + L or (PB + L - newpb) % 16:
+                        bad = (L, PB, "the call leaves ctx->partial_block_length = %d; with %d byte(s) pending before and %d consumed it must be congruent to %d modulo 16 and at most 16" % (newpb, PB, L, (PB + L) % 16))
+                        break
+                    n = (PB + L - newpb) // 16
+                    want = [("A", n)] + [(("D", k), n - k) for k in range(PB // 16, n)] + ([(("D", n), 0)] if newpb else [])
+                    where = "ctx->aad_hash"
+                else:
+                    got = set()
+                    for (l, h, ss) in fin.get("auth_tag", []):
+                        got |= ss
+                    want = [("A", 1 + (1 if PB else 0)), ("L", 1)]
+                    where = "the tag"
+                miss = [w for w in want if w not in got]
+                if miss:
+                    w = miss[0]
+                    have = sorted(e for (s_, e) in got if s_ == w[0])
+                    what = "the hash carried in the context" if w[0] == "A" else "the length block" if w[0] == "L" else "block %d of this call's data" % w[0][1]
+                    bad = (L, PB, "%s must reach %s multiplied by H^%d; on this path it arrives %s" % (what, where, w[1], ("multiplied by H^" + ", H^".join(map(str, have))) if have else "not at all"))
+                    break
+    out["gh_judged"] = out.get("gh_judged", 0) + judged
+    out["gh_notjudged"] = out.get("gh_notjudged", 0) + notj
+    out["gh_bodies"] = out.get("gh_bodies", 0) + 1
+    if notj and len(out.setdefault("gh_why", [])) < 3:
+        out["gh_why"].append("%s: %s" % (name, why))
+    rule = "R07.5" if kind == "update" else "R07.6"
+    if bad:
+        add(rule, name, "ghash:len=%d,pb=%d" % (bad[0], bad[1]), ("with len = %d and %d pending partial-block byte(s): " % (bad[0], bad[1]) if kind == "update" else "with %d pending partial-block byte(s): " % bad[1]) + bad[2], f.entry, key[1])
+    else:
+        out["gh_ok_" + kind] = out.get("gh_ok_" + kind, 0) + 1
+    if judged == 0:
+        out["broken"].append("%s: no run of the GHASH interpretation could be followed (%s)" % (name, why))
 
 
 def worker(lib, objname, extra):
@@ -121,6 +249,8 @@ def worker(lib, objname, extra):
                                 sv = st.get(x86.PARENT.get(src[1])) if src and src[0] == "r" and src[1] in x86.PARENT else None
                                 adds.append((b, i, sv))
         retb = {b for b, bl in f.blocks.items() if bl[-1].is_ret() or (bl[-1].is_branch() and bl[-1].rel)}
+        if kind in ("update", "final"):
+            gh_rule(lib, o, key, name, kind, sig, fields, extra, out, add)
         if kind == "update":
             out["update"] += 1
             out["data"] += len(data)
@@ -193,12 +323,17 @@ def run(chk):
     cand, ndisp = cands.candidates(chk, lib, mods, "aes/", ["_aes_gcm_enc_", "_aes_gcm_dec_", "_aes_gcm_init_"])
     sel = {c: v for c, v in cand.items() if any(t in c for t in ("_update_", "_finalize_", "_init_"))}
     objs = sorted({lib._by_name[c][0] for c in sel if c in lib._by_name})
-    res = par.map_objects(lib, worker, objs, extra={"cand": sel, "fields": fields})
+    res = par.map_objects(lib, worker, objs, extra={"cand": sel, "fields": fields, "tier": chk.tier})
     tot = collections.Counter()
     for objname in sorted(res):
         r = res[objname]
         for k in ("update", "final", "init", "ok1", "ok2", "ok3", "data"):
             tot[k] += r[k]
+        for k in ("gh_judged", "gh_notjudged", "gh_bodies", "gh_ok_update", "gh_ok_final"):
+            tot[k] += r.get(k, 0)
+        for w_ in r.get("gh_why", []):
+            if len(chk.notes) < 6:
+                chk.notes.append("GHASH interpretation not followed: " + w_)
         for b in r["broken"]:
             chk.broke(b)
         for fd in r["findings"]:
@@ -206,9 +341,20 @@ def run(chk):
         for s in r["samples"]:
             if len(chk.samples) < 6:
                 chk.samples.append(dict(rule="R07.1-3", **s))
+    # ---- R07.4
+    def group_of(iface):
+        m = re.match(r"^_aes_gcm_(precomp|enc|dec)_(128|256)(_update)?(_nt)?$", iface)
+        return "gcm-%s" % m.group(2) if m else None
+    ncoh = cands.coherence_rule(chk, "R07.4", lib, ["_aes_gcm_"], group_of,
+                                "the hash-key table the precomp routine writes into the key data is laid out for its own family (VAES keeps different powers of H at different offsets), so an update that reads it through another family's offsets produces a wrong tag")
+    chk.floor("CPU classes x GCM key sizes compared for family coherence", ncoh, 12)
     chk.obligations["R07.1"] = [tot["update"], tot["ok1"]]
     chk.obligations["R07.2"] = [tot["final"], tot["ok2"]]
     chk.obligations["R07.3"] = [tot["init"], tot["ok3"]]
+    chk.obligations["R07.5"] = [tot["update"], tot["gh_ok_update"]]
+    chk.obligations["R07.6"] = [tot["final"], tot["gh_ok_final"]]
+    chk.floor("GHASH-schedule runs followed to a return", tot["gh_judged"], 8000 if chk.tier != "thorough" else 40000)
+    chk.extra["ghash_runs"] = {"followed": tot["gh_judged"], "not_followed": tot["gh_notjudged"], "bodies": tot["gh_bodies"]}
     chk.floor("update bodies", tot["update"], 32)
     chk.floor("finalize bodies", tot["final"], 16)
     chk.floor("init bodies", tot["init"], 8)
